@@ -194,7 +194,7 @@ class Ctx:
         near = pm.take_log()
         if cond:
             self.ok(rule, key, detail or "held")
-        elif strict or (strict is None and (not self.lenient or rule in self.strict_rules)) or near:
+        elif strict or (strict is None and (not self.lenient or rule in self.strict_rules or armed(rule, key))) or near:
             self.bad(rule, key, message + (f" — found {near[0]}" if near else ""), file, line, witness, **facts)
         else:
             self.unres(rule, key, "construct not recognised: " + message[:160])
@@ -257,6 +257,30 @@ def transfer(ctx, src, mod, rules, key_filter=None, rename=None):
         if r in sub.rules:
             ctx.rules.setdefault((rename or {}).get(r, r), sub.rules[r])
     ctx.functions |= sub.functions
+
+
+# ---------------------------------------------------------------------------
+# Armed shape rules
+# ---------------------------------------------------------------------------
+# A shape rule (one that compares code with a required form) is lenient by default: when the form is not recognised
+# it reports "unresolved", not a violation.  Instances listed in armed_instances.json are strict.  The list is frozen
+# data: every instance decided on the reviewed tree that stayed silent, with strictness forced on, on every
+# behaviour-preserving variant of the corpus (mechanical rewrites and independent refactorings; tools/arm_rules.py).
+
+_ARMED = None
+
+
+def armed(rule, key):
+    global _ARMED
+    if os.environ.get("HYVERIF_ALL_STRICT"):
+        return True
+    if _ARMED is None:
+        try:
+            with open(os.path.join(os.path.dirname(os.path.abspath(__file__)), "armed_instances.json")) as f:
+                _ARMED = set(json.load(f))
+        except OSError:
+            _ARMED = set()
+    return f"{rule}|{key}" in _ARMED
 
 
 # ---------------------------------------------------------------------------
